@@ -296,6 +296,154 @@ theorem chord_stream_options_precedence :
     sameRows (chordStreamFilters 2 1 4 true false).1.ar [[1, 1], [1, 2], [2, 1]] = true := by
   decide +kernel
 
+/-! ### whole filter sets: inside `allowed`, the three filter *objects* are the three membership predicates -/
+
+/-- the three filter objects as the callables `combinations` receives (`chord_filter=f.filter`, …) -/
+def objFilters (chord : Option ChordFilter) (combo : Option ComboFilter) (type : Option TypeFilter) : Filters :=
+  { chord := chord.map (fun f => f.filter), combo := combo.map (fun f => f.filter),
+    type := type.map (fun f => f.filter) }
+
+/-- the same three filters read as sets of rows (the predicates the driver evaluates on implementation output) -/
+def memberOf (chord : Option ChordFilter) (combo : Option ComboFilter) (type : Option TypeFilter) : Filters :=
+  memberFilters (chord.map (fun f => (f.ar, f.invert))) (combo.map (fun f => (f.ar, f.invert)))
+    (type.map (fun f => (f.ar, f.invert)))
+
+/-- the filters fit the call: filter rows have the combination's size, and the column filter's `keys` covers the
+columns of its rows and of the chart's notes (`keys` = key count of the map). Outside it the positional hash
+collides (`combo_hash_collision`) and numpy raises or prefix-matches on rows of another size. -/
+structure FiltersFit (gs : List (List Row)) (n : Nat) (combo : Option ComboFilter) (type : Option TypeFilter) :
+    Prop where
+  combo_rows : ∀ f, combo = some f → ∀ r ∈ f.ar, r.length = n ∧ inRange f.keys r = true
+  combo_cols : ∀ f, combo = some f → ∀ g ∈ gs, ∀ r ∈ g, 0 ≤ r.col ∧ r.col < f.keys
+  type_rows : ∀ f, type = some f → ∀ r ∈ f.ar, r.length = n
+
+theorem OneEach.mem_some {α} {s : List α} {ls : List (List α)} (h : OneEach s ls) :
+    ∀ a ∈ s, ∃ l ∈ ls, a ∈ l := by
+  induction ls generalizing s with
+  | nil => cases s <;> simp_all [OneEach]
+  | cons l ls ih =>
+    cases s with
+    | nil => simp
+    | cons b t =>
+      intro a ha
+      rcases List.mem_cons.mp ha with rfl | ha
+      · exact ⟨l, List.mem_cons_self .., h.1⟩
+      · obtain ⟨l', hl', hal'⟩ := ih h.2 a ha
+        exact ⟨l', List.mem_cons_of_mem _ hl', hal'⟩
+
+theorem chordOk_obj_eq_member (chord : Option ChordFilter) (combo : Option ComboFilter) (type : Option TypeFilter)
+    (ch : List (List Row)) :
+    chordOk (objFilters chord combo type) ch = chordOk (memberOf chord combo type) ch := by
+  cases chord with
+  | none => rfl
+  | some f =>
+    simp only [chordOk, objFilters, memberOf, memberFilters, Option.map_some]
+    exact chord_filter_is_membership f _
+
+theorem comboOk_obj_eq_member (chord : Option ChordFilter) (combo : Option ComboFilter) (type : Option TypeFilter)
+    (n : Nat) (s : List Row) (hlen : s.length = n)
+    (hrows : ∀ f, combo = some f → ∀ r ∈ f.ar, r.length = n ∧ inRange f.keys r = true)
+    (hcols : ∀ f, combo = some f → ∀ r ∈ s, 0 ≤ r.col ∧ r.col < f.keys) :
+    comboOk (objFilters chord combo type) s = comboOk (memberOf chord combo type) s := by
+  cases combo with
+  | none => rfl
+  | some f =>
+    simp only [comboOk, objFilters, memberOf, memberFilters, Option.map_some]
+    apply combo_filter_is_membership
+    · intro r hr
+      have := hrows f rfl r hr
+      exact ⟨by rw [List.length_map, hlen]; exact this.1, this.2⟩
+    · rw [inRange_iff]
+      intro x hx
+      obtain ⟨r, hr, rfl⟩ := List.mem_map.mp hx
+      exact hcols f rfl r hr
+
+theorem typeOk_obj_eq_member (chord : Option ChordFilter) (combo : Option ComboFilter) (type : Option TypeFilter)
+    (n : Nat) (s : List Row) (hlen : s.length = n)
+    (hrows : ∀ f, type = some f → ∀ r ∈ f.ar, r.length = n) :
+    typeOk (objFilters chord combo type) s = typeOk (memberOf chord combo type) s := by
+  cases type with
+  | none => rfl
+  | some f =>
+    simp only [typeOk, objFilters, memberOf, memberFilters, Option.map_some]
+    apply type_filter_is_membership
+    intro r hr
+    rw [List.length_map, hlen]
+    exact hrows f rfl r hr
+
+/-- **filters_are_membership** (whole filter sets): for every grouping, size, sequence and every choice of the three
+filter objects that fit the call, `allowed` evaluated with the objects' own `filter` methods (positional hash for
+columns, row comparison for chord sizes, position-wise `issubclass` for types) equals `allowed` evaluated with the
+three membership predicates — so the specification the driver evaluates on the implementation's output is the one
+`combinations_iff` speaks about. -/
+theorem filters_are_membership (gs : List (List Row)) (n : Nat) (chord : Option ChordFilter)
+    (combo : Option ComboFilter) (type : Option TypeFilter) (s : List Row) (hfit : FiltersFit gs n combo type) :
+    allowed gs n (objFilters chord combo type) s = allowed gs n (memberOf chord combo type) s := by
+  have key : ∀ i, i < gs.length + 1 - n →
+      (takesOneEach s ((gs.drop i).take n) && chordOk (objFilters chord combo type) ((gs.drop i).take n)
+        && comboOk (objFilters chord combo type) s && typeOk (objFilters chord combo type) s) =
+      (takesOneEach s ((gs.drop i).take n) && chordOk (memberOf chord combo type) ((gs.drop i).take n)
+        && comboOk (memberOf chord combo type) s && typeOk (memberOf chord combo type) s) := by
+    intro i hi
+    cases h1 : takesOneEach s ((gs.drop i).take n) with
+    | false => simp
+    | true =>
+      have hone := (takesOneEach_iff _ _).mp h1
+      have hlen : s.length = n := by
+        rw [hone.length_eq, List.length_take, List.length_drop]; omega
+      have hmem : ∀ r ∈ s, ∃ g ∈ gs, r ∈ g := by
+        intro r hr
+        obtain ⟨g, hg, hrg⟩ := hone.mem_some r hr
+        exact ⟨g, List.mem_of_mem_drop (List.mem_of_mem_take hg), hrg⟩
+      rw [chordOk_obj_eq_member,
+        comboOk_obj_eq_member chord combo type n s hlen hfit.combo_rows
+          (fun f hf r hr => by obtain ⟨g, hg, hrg⟩ := hmem r hr; exact hfit.combo_cols f hf g hg r hrg),
+        typeOk_obj_eq_member chord combo type n s hlen hfit.type_rows]
+  simp only [allowed]
+  apply Bool.eq_iff_iff.mpr
+  simp only [List.any_eq_true, List.mem_range]
+  constructor
+  · rintro ⟨i, hi, h⟩; exact ⟨i, hi, by rw [← key i hi]; exact h⟩
+  · rintro ⟨i, hi, h⟩; exact ⟨i, hi, by rw [key i hi]; exact h⟩
+
+/-- **combinations_iff_membership**: with the real filter objects, a sequence is reported iff it takes one note from
+each of `n` consecutive groups and the chunk's sizes / its columns / its types are (or, for excluding filters, are
+not) among the filters' rows — none missing, none extra, for whole filter sets. -/
+theorem combinations_iff_membership (gs : List (List Row)) (n : Nat) (chord : Option ChordFilter)
+    (combo : Option ComboFilter) (type : Option TypeFilter) (s : List Row) (hfit : FiltersFit gs n combo type) :
+    s ∈ (combinations gs n (objFilters chord combo type)).flatten ↔
+      allowed gs n (memberOf chord combo type) s = true := by
+  rw [mem_combinations_iff, filters_are_membership gs n chord combo type s hfit]
+
+/-- non-vacuity: the jack template's two filters fit a 4-key grouping at size 2 -/
+example : FiltersFit [[⟨0, 0, .hit⟩, ⟨1, 0, .hit⟩], [⟨1, 100, .hit⟩]] 2
+    (some (jackFilters 2 4).1) (some (jackFilters 2 4).2) where
+  combo_rows := by
+    intro f hf r hr
+    cases hf
+    have : (jackFilters 2 4).1.ar = [[0, 0], [1, 1], [2, 2], [3, 3]] := by decide +kernel
+    rw [this] at hr
+    simp only [List.mem_cons, List.not_mem_nil, or_false] at hr
+    rcases hr with rfl | rfl | rfl | rfl <;> decide
+  combo_cols := by
+    intro f hf g hg r hr
+    cases hf
+    have hk : (jackFilters 2 4).1.keys = 4 := rfl
+    rw [hk]
+    simp only [List.mem_cons, List.not_mem_nil, or_false] at hg
+    rcases hg with rfl | rfl
+    · simp only [List.mem_cons, List.not_mem_nil, or_false] at hr
+      rcases hr with rfl | rfl <;> decide
+    · simp only [List.mem_cons, List.not_mem_nil, or_false] at hr
+      rcases hr with rfl <;> decide
+  type_rows := by
+    intro f hf r hr
+    cases hf
+    have : (jackFilters 2 4).2.ar = [[.holdTail, .object], [.object, .holdTail]] := by decide +kernel
+    rw [this] at hr
+    simp only [List.mem_cons, List.not_mem_nil, or_false] at hr
+    rcases hr with rfl | rfl <;> rfl
+
 /-! ### non-vacuity: the hypotheses are satisfiable on non-trivial values, and the model computes -/
 
 /-- the suite's eight-note pattern, `v = 100`, jacks avoided -/
